@@ -199,6 +199,11 @@ fn monitors(cx: &mut Ctx, op: &Op, ok: bool, before: &Snap, after: &Snap) {
             }
             if before.supply - after.supply != *amount || before.lp[*u] - after.lp[*u] != *amount { out.monitor_fail("C04", "withdrawal did not burn exactly the LP sent", rp.clone()); }
         }
+        Op::SetFees { .. } => {
+            // a fee update names no ramp: the amplification schedule (both amps, both blocks) stays what it was, and nothing moves
+            if after.cfg != before.cfg { out.monitor_fail("C04", &format!("an UpdateConfig that names only the fee schedule changed the amplification schedule from {:?} to {:?}", before.cfg, after.cfg), rp.clone()); }
+            if after.bal != before.bal || after.fee != before.fee || after.supply != before.supply { out.monitor_fail("C04", "a fee update moved funds or ledgers", rp.clone()); }
+        }
         Op::Collect => {
             for k in 0..3 {
                 let sent = after.coll[k] - before.coll[k];
@@ -279,10 +284,12 @@ fn gen_op(rng: &mut Rng, s: &Snap) -> Op {
 
 pub struct History { pub amp: u64, pub fees: (u128, u128, u128), pub kinds: [bool; 3], pub fixed: Option<Vec<Op>>, pub len: usize }
 
-pub fn run_history(out: &mut Out, rng: &mut Rng, h: &History) {
+pub fn run_history(out: &mut Out, rng: &mut Rng, h: &History) { run_history_with(out, rng, h, [DENOMS[0], DENOMS[1], DENOMS[2]]) }
+/// `denoms`: the native denoms of the pool's assets (where an asset is native)
+pub fn run_history_with(out: &mut Out, rng: &mut Rng, h: &History, denoms: [&str; 3]) {
     let mut replay = json!({"kind": "pool_history", "amp": h.amp, "fees_protocol_swap_burn": [h.fees.0.to_string(), h.fees.1.to_string(), h.fees.2.to_string()],
-                            "asset_kinds_cw20": h.kinds, "ops": []});
-    let mut w = match deploy_trio(h.kinds, [6, 6, 6], trio_fee(h.fees.0, h.fees.1, h.fees.2), h.amp) { Ok(w) => w, Err(_) => { out.count("pool:instantiate_rejected"); return; } };
+                            "asset_kinds_cw20": h.kinds, "native_denoms": denoms, "ops": []});
+    let mut w = match deploy_trio_denoms(h.kinds, [6, 6, 6], trio_fee(h.fees.0, h.fees.1, h.fees.2), h.amp, denoms) { Ok(w) => w, Err(_) => { out.count("pool:instantiate_rejected"); return; } };
     let h_init = w.height();
     let mut obsv: Vec<String> = vec!["0".into()];
     let mut items: Vec<String> = vec![];
@@ -502,6 +509,19 @@ pub fn pool_histories(out: &mut Out, rng: &mut Rng, n: u64) {
         ]) },
     ];
     for h in corpus { run_history(out, rng, &h); }
+    // bank denoms are case-sensitive: a pool over two denoms that differ only in case keeps three separate ledgers
+    let twins = History { amp: 100, fees: (DEC / 1000, 3 * DEC / 1000, DEC / 1000), kinds: [false, false, false], len: 0, fixed: Some(vec![
+        Op::Provide { u: 0, d: [1_000_000_000, 1_000_000_000, 1_000_000_000] },
+        Op::Swap { u: 1, i: 2, j: 0, x: 5_000_000, ms: None },
+        Op::Swap { u: 2, i: 2, j: 1, x: 7_000_000, ms: None },
+        Op::Swap { u: 1, i: 0, j: 1, x: 3_000_000, ms: None },
+        Op::Collect,
+        Op::Provide { u: 1, d: [10_000_000, 1, 500] },
+        Op::Swap { u: 2, i: 1, j: 0, x: 9_000_000, ms: None },
+        Op::Withdraw { u: 0, amount: 500_000_000 },
+        Op::Collect,
+    ]) };
+    run_history_with(out, rng, &twins, [DENOMS[0], "UWHALE", DENOMS[2]]);
     for _ in 0..n {
         let amp = match rng.below(10) { 0 => 1, 1 => 2, 2 => 10, 3 => 85, 4 => 1_000_000, 5 => 1 + rng.below(1_000_000), _ => *rng.pick(&[100u64, 1000, 5000]) };
         let fees = if rng.chance(1, 4) { (0, 0, 0) } else { fee_triple(rng, true) };
